@@ -98,13 +98,19 @@ def r1_registry(chk: Check):
     cs = tree.func("core.objects", "ConfigInformation.submit")
     gc = CFG(cs.node)
     rdc = ReachingDefs(gc)
-    rets = [n for n in gc.live if n.kind == "stmt" and isinstance(n.ast, ast.Return) and n.ast.value is not None and "_taskoutput" in src(n.ast.value) and "self." not in src(n.ast.value)]
+    rets = [n for n in gc.live if n.kind == "stmt" and isinstance(n.ast, ast.Return) and n.ast.value is not None and "_taskoutput" in src(n.ast.value)]
     ok = False
     for n in rets:
         v = rdc.canon(n.ast.value, n)
         gsn = [(rdc.canon(t.ast, t), pol) for t, pol in gc.guards(n) if t.kind == "test"]
-        if v.startswith("experiment.CURRENT.submit(self.job).config.__xpm__._taskoutput") and any(c == "experiment.CURRENT.submit(self.job)" and pol is True for c, pol in gsn):
+        dupl = any(c == "experiment.CURRENT.submit(self.job)" and pol is True for c, pol in gsn)
+        if dupl and v.startswith("experiment.CURRENT.submit(self.job).config.__xpm__._taskoutput"):
             ok = True
+        if dupl and v == "self._taskoutput":
+            # returned through the attribute: it was just set to the first submission's output
+            st = [m for m in gc.live if m.kind == "stmt" and isinstance(m.ast, ast.Assign) and src(m.ast.targets[0]) == "self._taskoutput" and gc.dominates(m, n)
+                  and rdc.canon(m.ast.value, m).startswith("experiment.CURRENT.submit(self.job).config.__xpm__._taskoutput")]
+            ok = ok or bool(st)
     chk.require(ok, chk.fkey(cs, "returns first output"), "a duplicate submission must return the first submission's task output", chk.loc(cs.module, cs.node))
     first = [n for n in gc.live if n.kind == "test" and src(n.ast) == "self.job"]
     ok = bool(first) and any(isinstance(m.ast, ast.Raise) for b, l in first[0].succ if l is True for m, _ in b.succ)
@@ -374,7 +380,23 @@ def r6_lock_held_during_body(chk: Check):
     c10.r4_lock_type(chk)
 
 
+def resubmission_registered(chk: Check):
+    """Every job that aio_registerJob lets through (returns None after counting it) is the job the scheduler knows for its identifier: a job
+    submitted again after a failure must replace the failed one, or every later identical submission is scheduled once more"""
+    tree = chk.tree
+    f = tree.func("scheduler.base", "Scheduler.aio_registerJob")
+    g = CFG(f.node)
+    incs = [n for n in g.live if n.kind == "stmt" and isinstance(n.ast, ast.AugAssign) and src(n.ast.target) == "self.xp.unfinishedJobs"]
+    stores = [n for n in g.live if n.kind == "stmt" and isinstance(n.ast, ast.Assign) and src(n.ast.targets[0]) == "self.jobs[job.identifier]" and src(n.ast.value) == "job"]
+    chk.min_instances(len(incs), 2, "counted registrations in aio_registerJob")
+    for n in incs:
+        chk.require(bool(stores) and g.on_every_path(stores, start=n, end=g.exit), chk.fkey(f, "every counted job is the registered job"),
+                    f"after `{src(n.ast)}` (line {n.lineno}) a path returns without `self.jobs[job.identifier] = job`: the scheduler keeps the failed job as the known one and "
+                    "further identical submissions are never merged", chk.loc(f.module, n.ast))
+
+
 def r7_running_or_queued_is_adopted(chk: Check):
+    resubmission_registered(chk)
     """A job whose process exists (running, or queued by a batch launcher) is adopted, not launched again (= C11.R2 adoption decision)"""
     from . import c11
 
